@@ -66,3 +66,23 @@ Example C18_untraced_formatting_element_caught :
   gc_check frameset_segments_formatting_untraced = Some (3, 0, 4) /\
   ~ GcSafe frameset_segments_formatting_untraced.
 Proof. exact untraced_formatting_element_caught. Qed.
+
+(* ------------------------------------------------------------------ the html tree-builder model *)
+(* Over the executable model coq/Tree (tied to html5ever by ./check C02): the handles trace_handles reports are
+   exactly the Handle-typed components of the state, each of them is the Document or an element the sink created,
+   and (Props/C05.v, clause CUnknownHandle covered) no operation is ever handed a handle the sink has not handed
+   out before.  The liveness statement GcSafe itself - connectivity of every later-used node to a traced handle at
+   every suspension point - needs the shape of the tree and stays monitored by ./check C18. *)
+From HV Require Tree.TreeTypes Tree.TreeInvDefs Tree.TreeInvMain.
+
+Theorem C18_model_handles_traced :
+  forall s h, In h (TreeInvDefs.trace s) <->
+    h = 0 \/ In h (TreeTypes.open_elems s) \/ (exists t, In (TreeTypes.FElem h t) (TreeTypes.active_formatting s)) \/
+    TreeTypes.head_elem s = Some h \/ TreeTypes.form_elem s = Some h \/ TreeTypes.context_elem s = Some h.
+Proof. exact TreeInvMain.handles_traced. Qed.
+Print Assumptions C18_model_handles_traced.
+
+Theorem C18_model_traced_handles_are_sink_elements :
+  forall s, TreeInvDefs.TInv s -> forall h, In h (TreeInvDefs.trace s) -> h = 0 \/ TreeInvDefs.known s h.
+Proof. exact TreeInvMain.traced_handles_known. Qed.
+Print Assumptions C18_model_traced_handles_are_sink_elements.
